@@ -66,6 +66,12 @@ CLAIMED = {
         note="Trusted: the humsim scheduler (every Mutex/mpsc/spawn/join is a decision point; only one thread runs at a time, so races inside a single un-intercepted stretch of code are not explored); std's unwinding/poisoning are the real ones."),
 }
 
+CLAIMED["C19"] = dict(
+    level="exploration", design="§6 C19",
+    technique="deterministic simulation: the whole humphrey_server::server::main from a generated Config on humsim's network, clients connecting from arbitrary IPv4/IPv6 source addresses (only a simulated network allows that), scripted upstream for proxy routes, cache warming histories, seeded schedules",
+    text="Seeded configurations (block/forbidden x list contents x file/directory/proxy/redirect routes x cache on/off x threads) and clients from chosen addresses sending keep-alive request sequences with X-Forwarded-For absent or naming listed/unlisted addresses. Oracle: listed peer in block mode never receives a byte; listed peer or listed forwarded origin in forbidden mode gets 403 and never the route's content whatever headers it sends; all-unlisted clients are served the exact file / directory file / upstream response / redirect.",
+    note="Trusted: humsim TCP (peer addresses are whatever the harness chooses); real std::fs on a scratch directory; a listed intermediate forwarding entry may be refused or served.")
+
 NA = {
     "C05": "pure function wildcard_match(&str,&str)->bool: no schedule, clock, I/O or fault in the statement; deciding it is exhaustive input enumeration, not simulation (DESIGN §7)",
     "C06": "function of (directory tree, request path); no schedule, clock or fault in the statement and no file-system seam its clauses would use (DESIGN §7)",
